@@ -154,6 +154,13 @@ class _FakeSocketModule(object):
         self._sim.sock.timeout = _DEFAULT_TIMEOUT[0]
         return self._sim.sock
 
+    def create_connection(self, address, timeout=None, source_address=None, **kw):
+        sock = self.socket()
+        if timeout is not None:
+            sock.settimeout(timeout)
+        sock.connect(address)
+        return sock
+
     def setdefaulttimeout(self, t):
         _DEFAULT_TIMEOUT[0] = t
 
@@ -171,19 +178,53 @@ class _FakeSelect(object):
         raise HarnessError('simulated %s has no %r: the simulation does not fit this tree' % (type(self).__name__, name))
 
     error = OSError
+    POLLIN, POLLPRI, POLLOUT, POLLERR, POLLHUP, POLLNVAL = 1, 2, 4, 8, 16, 32
 
     def __init__(self, sim):
         self._sim = sim
 
-    def select(self, rlist, wlist, xlist, timeout=None):
+    def _readable(self, sock):
         sim = self._sim
         sim.point('select')
-        sock = rlist[0] if rlist else None
         if sock is not None:
             sim.release_eager()
-            if sock.readable():
-                return [sock], [], []
+            return bool(sock.readable())
+        return False
+
+    def select(self, rlist, wlist, xlist, timeout=None):
+        sock = rlist[0] if rlist else None
+        if self._readable(sock):
+            return [sock], [], []
         return [], [], []
+
+    def poll(self):
+        return _FakePoll(self)
+
+
+class _FakePoll(object):
+    """select.poll() over the one simulated socket."""
+
+    def __init__(self, sel):
+        self._sel = sel
+        self._socks = {}
+
+    def register(self, fd, eventmask=1 | 2 | 4):
+        self._socks[fd if isinstance(fd, int) else fd.fileno()] = (fd, eventmask)
+
+    modify = register
+
+    def unregister(self, fd):
+        self._socks.pop(fd if isinstance(fd, int) else fd.fileno(), None)
+
+    def poll(self, timeout=None):
+        out = []
+        sock = self._sel._sim.sock
+        for num, (obj, mask) in sorted(self._socks.items()):
+            if num == sock.fileno() and mask & 1 and self._sel._readable(sock):
+                out.append((num, 1))
+        if not self._socks:
+            self._sel._sim.point('select')
+        return out
 
 
 class _FakeTime(object):
@@ -203,6 +244,13 @@ class _FakeTime(object):
         #  polls the socket nor its user queue any more still runs into the budget / livelock detection)
         self._sim.point('clock')
         return self._sim.now
+
+    # (an interval measured on the monotonic clock is the same interval)
+    def monotonic(self):
+        return self.time()
+
+    def perf_counter(self):
+        return self.time()
 
     def sleep(self, dt):
         self._sim.now += dt
@@ -384,7 +432,7 @@ class Sim(object):
         p = self.provider
         self.snaps.append({
             'at': len(self.log), 'next': self.next, 'state': self.state(),
-            'artim': p.timer._start_time is not None, 'artim_start': p.timer._start_time,
+            'artim': p.timer.sim_started is not None, 'artim_start': p.timer.sim_started,
             'closed': self.sock.closed, 'sock_none': p.dul_socket is None, 'now': self.now,
             'pending_events': len(p.event)})
 
@@ -473,15 +521,76 @@ class Sim(object):
     # -- running ---------------------------------------------------------------------------
     @contextlib.contextmanager
     def patched(self):
+        """The modules the provider is made of see a simulated select / time / socket - whether they reach them as
+        a module (`time.time()`), or through a name bound at import (`from time import monotonic`, `_now = time.time`).
+        The timer class is replaced by a subclass that records, through its PUBLIC start / stop / restart methods,
+        whether it is running."""
+        import select as real_select
+        import socket as real_socket
+        import time as real_time
         from pynetdicom2 import dulprovider, fsm
-        saved = (dulprovider.select, dulprovider.time, fsm.socket)
-        dulprovider.select = _FakeSelect(self)
-        dulprovider.time = _FakeTime(self)
-        fsm.socket = _FakeSocketModule(self)
+        from .common import HarnessError
+        fakes = {real_select: _FakeSelect(self), real_time: _FakeTime(self), real_socket: _FakeSocketModule(self)}
+        aliases = {}
+        for real, fake in fakes.items():
+            for name in ('time', 'monotonic', 'perf_counter', 'sleep', 'select', 'poll', 'socket', 'create_connection',
+                         'setdefaulttimeout', 'getdefaulttimeout'):
+                fn = getattr(real, name, None)
+                if fn is not None and callable(fn) and name in type(fake).__dict__:
+                    aliases[id(fn)] = (fn, getattr(fake, name))
+        saved = []
+        for mod in (dulprovider, fsm):
+            for name, val in list(vars(mod).items()):
+                new = None
+                if isinstance(val, (_FakeSelect, _FakeTime, _FakeSocketModule)):
+                    # (a simulation nested in another one - a second provider of the same process - brings its own)
+                    new = [f for f in fakes.values() if type(f) is type(val)][0]
+                elif getattr(val, '__self__', None) is not None and \
+                        isinstance(val.__self__, (_FakeSelect, _FakeTime, _FakeSocketModule)):
+                    own = [f for f in fakes.values() if type(f) is type(val.__self__)][0]
+                    new = getattr(own, val.__name__)
+                elif val in (real_select, real_time, real_socket):
+                    # (fsm has always seen the fake socket module only; dulprovider keeps the real one for its
+                    #  `except socket.error` clauses unless it creates sockets itself)
+                    if val is real_socket and mod is dulprovider:
+                        continue
+                    new = fakes[val]
+                elif id(val) in aliases and aliases[id(val)][0] is val:
+                    new = aliases[id(val)][1]
+                if new is not None:
+                    saved.append((mod, name, val))
+                    setattr(mod, name, new)
+        timer_cls = getattr(dulprovider, 'Timer', None)
+        timer_cls = getattr(timer_cls, 'sim_base', timer_cls)
+        if not isinstance(timer_cls, type) or not all(callable(getattr(timer_cls, m, None)) for m in ('start', 'stop', 'restart', 'check')):
+            for mod, name, val in saved:
+                setattr(mod, name, val)
+            raise HarnessError('dulprovider.Timer with start/stop/restart/check is not there: the simulation does not fit this tree')
+        sim = self
+
+        class SimTimer(timer_cls):
+            sim_started = None
+            sim_base = timer_cls
+
+            def start(self):
+                self.sim_started = sim.now
+                return timer_cls.start(self)
+
+            def stop(self):
+                self.sim_started = None
+                return timer_cls.stop(self)
+
+            def restart(self):
+                res = timer_cls.restart(self)
+                self.sim_started = sim.now
+                return res
+        saved.append((dulprovider, 'Timer', dulprovider.Timer))
+        dulprovider.Timer = SimTimer
         try:
             yield
         finally:
-            dulprovider.select, dulprovider.time, fsm.socket = saved
+            for mod, name, val in saved:
+                setattr(mod, name, val)
 
     def build(self):
         """Create the provider (must be called inside `patched()`); run() is NOT started."""
@@ -523,7 +632,15 @@ class Sim(object):
 
     def artim_running(self):
         p = self.provider
-        return p is not None and p.timer._start_time is not None
+        return p is not None and p.timer.sim_started is not None
+
+    def _stop_request_completes(self):
+        """kill() - the public 'stop and wait until the loop has ended' - returns (the loop HAS ended)."""
+        import threading
+        th = threading.Thread(target=self.provider.kill, daemon=True)
+        th.start()
+        th.join(2.0)
+        return not th.is_alive()
 
     def indications(self):
         return [e[1] for e in self.log if e[0] == 'ind']
@@ -542,8 +659,8 @@ class Sim(object):
         p = self.provider
         return {'state': self.state(), 'closed': self.sock.closed or
                 (self.role == 'requestor' and self.sock.connected_to is None),
-                'sock_none': p.dul_socket is None, 'artim': p.timer._start_time is not None,
-                'loop_exited_flag': p._is_killed.is_set(), 'outcome': self.outcome[0]}
+                'sock_none': p.dul_socket is None, 'artim': p.timer.sim_started is not None,
+                'loop_exited_flag': self._stop_request_completes(), 'outcome': self.outcome[0]}
 
 
 def run_scenario(role, actions, **kw):
